@@ -10,7 +10,8 @@ TOL = 1e-6
 # non-initial states: earlier requests on the same protocol object, followed at once by the explored request
 PRIORS = {'none': (), 'success': (['valid'],), 'rejected@.5T': (['exc@.5T'],), 'exhausted': (['drop'] * 4,),
           'fragment+valid': (['frag2@.4T'],), 'late-answer': (['valid@1.5T', 'drop', 'drop', 'drop'],),
-          'garbage': (['garbage', 'valid'],), 'rejected,success': (['exc@.9T'], ['valid'])}
+          'garbage': (['garbage', 'valid'],), 'rejected,success': (['exc@.9T'], ['valid']),
+          'timeout+rejected': (['drop', 'exc2'],), 'timeout+icmp': (['drop', 'icmp'],), 'timeout+success': (['drop', 'valid'],)}
 
 
 def monitor(cfg, obs):
@@ -181,7 +182,7 @@ def run(tier, seed, rep):
     # non-initial states
     for tr in ('udp', 'tcp'):
         for ka in (False, True):
-            for prior in (PRIORS if tier == 'thorough' else ('success', 'rejected@.5T', 'late-answer')):
+            for prior in (PRIORS if tier == 'thorough' else ('success', 'rejected@.5T', 'late-answer', 'fragment+valid', 'timeout+rejected')):
                 if prior == 'none':
                     continue
                 cfg = dict(transport=tr, ka=ka, T=1, R=1, cmd='read', prior=prior)
